@@ -38,6 +38,8 @@ var c20Queries = []c20Query{
 	{"tumbling_et", "SELECT k, count(*) AS c, collect(id) AS ids, window_start() AS ws FROM stream GROUP BY k, TumblingWindow('1s') WITH (TIMESTAMP='ts', TIMEUNIT='ms')", false, false},
 	{"join", "SELECT id, a, m.label AS lbl, m.w AS w FROM stream JOIN meta m ON k = m.k", true, true},
 	{"join_left_where", "SELECT id, k, m.label AS lbl FROM stream LEFT JOIN meta m ON k = m.k WHERE a >= 0", true, true},
+	{"join_analytic", "SELECT id, a, lag(a) AS pa, m.label AS lbl FROM stream JOIN meta m ON k = m.k", true, true},
+	{"join_fn_key", "SELECT upper(k) AS uk, count(*) AS c, collect(id) AS ids FROM stream LEFT JOIN meta m ON k = m.k GROUP BY upper(k), CountingWindow(3)", false, true},
 	{"cep", "SELECT * FROM stream MATCH_RECOGNIZE (ORDER BY ts MEASURES MATCH_NUMBER() AS mn, FIRST(A.id) AS fid, COUNT(*) AS n ONE ROW PER MATCH PATTERN (A B) DEFINE A AS a > 5, B AS a <= 5)", false, false},
 	{"cep_failing_define", "SELECT * FROM stream MATCH_RECOGNIZE (ORDER BY ts MEASURES MATCH_NUMBER() AS mn, FIRST(A.id) AS fid, COUNT(*) AS n ONE ROW PER MATCH PATTERN (A B) DEFINE A AS a / b > 2, B AS a <= 5)", false, false},
 	{"cep_all_rows", "SELECT * FROM stream MATCH_RECOGNIZE (ORDER BY ts MEASURES MATCH_NUMBER() AS mn, FIRST(A.id) AS fid, LAST(A.a) AS la ALL ROWS PER MATCH PATTERN (A B) DEFINE A AS a > 5, B AS a <= 5)", false, false},
@@ -172,7 +174,7 @@ func runC20Literals(ctx *core.Ctx) {
 }
 
 func runC20(ctx *core.Ctx) {
-	ctx.SetRule("case = (one of 20 query kinds: projection, *, expressions, analytic in SELECT / in WHERE / wrapped, function group key, counting, event-time tumbling, JOIN inner/left+WHERE, CEP with and without a DEFINE that fails on some rows, CASE, unnest, merge_agg, ALL ROWS PER MATCH with MEASURES, array functions) × API (Emit | EmitSync) × mode (caller-data untouched + sink rows unaltered | paired with an instance of the same SQL | paired with a different SQL sharing expression texts but fed differently typed rows), nested rows from PRNG(seed,index). " +
+	ctx.SetRule("case = (one of 22 query kinds: projection, *, expressions, analytic in SELECT / in WHERE / wrapped, function group key, counting, event-time tumbling, JOIN inner/left+WHERE, JOIN with an analytic item / a function group key, CEP with and without a DEFINE that fails on some rows, CASE, unnest, merge_agg, ALL ROWS PER MATCH with MEASURES, array functions) × API (Emit | EmitSync) × mode (caller-data untouched + sink rows unaltered | paired with an instance of the same SQL | paired with a different SQL sharing expression texts but fed differently typed rows), nested rows from PRNG(seed,index). " +
 		"non-trivial = at least 5 results were delivered and compared; distinct by (query, mode, api, rows) hash")
 	ctx.Assume("structural deep equality including key sets; Go value types are compared exactly for caller data",
 		"paired runs feed both instances from concurrent goroutines; the solo run is the oracle for the paired one, joined per row id")
